@@ -40,6 +40,21 @@ EXTERNAL = {
     'time.strptime': ['ValueError'],
     'calendar.timegm': [],
     'email.utils.parsedate': [],
+    'email.utils.parsedate_tz': [],
+    # struct_time -> seconds: out-of-range fields raise OverflowError (ValueError on some platforms); TypeError for a None
+    # argument is added by the maybe-None rule below
+    'time.mktime': ['OverflowError', 'ValueError'],
+    'time.gmtime#arg': ['OverflowError', 'OSError', 'ValueError'],
+    'time.localtime#arg': ['OverflowError', 'OSError', 'ValueError'],
+    # readers created over server data: the errors of the later read()/iteration are attributed to the creation site
+    # (creation and consumption happen in the same reader function / generator in this repository)
+    'codecs.getreader': ['LookupError', 'UnicodeError'],
+    'codecs.getwriter': ['LookupError'],
+    'io.TextIOWrapper': ['LookupError', 'UnicodeError'],
+    'gzip.GzipFile#read': ['EOFError', 'OSError', 'zlib.error'],
+    'gzip.open#read': ['EOFError', 'OSError', 'zlib.error'],
+    'mimetypes.guess_type': [],
+    'os.utime': [],                   # local file system errors are not server data
     'struct.unpack': ['struct.error'],
     'codecs.lookup': ['LookupError'],
     'codecs.getdecoder': ['LookupError'],
@@ -93,7 +108,7 @@ class Item(tuple):
 
 class Escape:
     def __init__(self, repo, res, summaries=None, external=None, count_asserts=True, count_idioms=True,
-                 stop_at=None, codec_lookup=False, stop_modules=('wpull.thirdparty',), taint=None):
+                 stop_at=None, codec_lookup=False, stop_modules=('wpull.thirdparty',), taint=None, callbacks=None):
         self.repo = repo
         self.res = res
         self.summaries = summaries or {}      # qualname -> list of type names (overrides analysis)
@@ -112,6 +127,7 @@ class Escape:
         self._anc = {}
         self.stop_at = stop_at or set()
         self.stop_modules = tuple(stop_modules)
+        self.callbacks = callbacks or {}      # method name of an external callee -> repository functions it calls back
         self.taint = taint            # optional: drop callee items when a stateless callee gets no tainted argument
         self.env = {}
         self.nest = 0
@@ -375,6 +391,7 @@ class Escape:
             v = s.value
             if isinstance(v, ast.Call) and isinstance(v.func, ast.Attribute) and v.func.attr in ('split', 'rsplit') \
                     and not any(isinstance(e, ast.Starred) for e in s.targets[0].elts) \
+                    and not ((dotted(v.func) or '') in ('os.path.split', 'posixpath.split', 'ntpath.split') and len(s.targets[0].elts) == 2) \
                     and not (len(s.targets[0].elts) == 2 and v.args and guarded_separator(fi.node, v, s)):
                 out.add(self._item(fi, v, IDIOM_UNPACK, '%s unpack of %s' % (fi.loc(s), norm_text(v)), 'unpack'))
         return out
@@ -432,6 +449,14 @@ class Escape:
                 self.clean_calls += 1
                 continue
             out |= self._via(fi, call, self._esc(f, self._bind(f, call, isinstance(call.func, ast.Attribute))))
+        # external callee that calls back into the repository (a policy / handler object registered with it); also when the
+        # name happens to resolve to a repository wrapper of the same name
+        if isinstance(call.func, ast.Attribute) and call.func.attr in self.callbacks:
+            for q in self.callbacks[call.func.attr]:
+                g = self.repo.funcs.get(q)
+                if g is not None:
+                    self.call_edges.setdefault(fi.qual, set()).add(g.qual)
+                    out |= self._esc(g, {})
         if funcs:
             return out
         # external
@@ -441,6 +466,12 @@ class Escape:
                 name = t
         attr = call.func.attr if isinstance(call.func, ast.Attribute) else None
         key = None
+        if name in ('time.gmtime', 'time.localtime') and (call.args or call.keywords):
+            name = name + '#arg'
+        if name in ('gzip.GzipFile', 'gzip.open'):
+            mode = U.kwarg(call, 'mode', 1)
+            if mode is None or (isinstance(mode, ast.Constant) and isinstance(mode.value, str) and 'r' in mode.value):
+                name = name + '#read'
         if name is not None and name in self.external:
             key = name
         elif attr is not None and '.' + attr in self.external:
@@ -475,7 +506,7 @@ class Escape:
                                                                   'surrogateescape', 'xmlcharrefreplace'):
                 types = [t for t in types if not t.startswith('Unicode')]
             enc = U.kwarg(call, 'encoding', 0)
-            if enc is not None and not isinstance(enc, ast.Constant):
+            if enc is not None and isinstance(enc, ast.Name):
                 k_, v_ = self._const(enc)
                 if k_:
                     enc = ast.Constant(value=v_)
@@ -487,6 +518,19 @@ class Escape:
                 types = [t for t in types]
             if key == '.decode' and isinstance(enc, ast.Constant) and str(enc.value).lower().replace('-', '').replace('_', '') in ('latin1', 'iso88591'):
                 types = [t for t in types if not t.startswith('Unicode')]
+        if key in ('codecs.getreader', 'codecs.getwriter', 'io.TextIOWrapper'):
+            enc = U.kwarg(call, 'encoding', 0 if key.startswith('codecs.') else 1)
+            if isinstance(enc, ast.Name):       # _const gives the truth value of and/or expressions, not their value
+                k_, v_ = self._const(enc)
+                if k_:
+                    enc = ast.Constant(value=v_)
+            # `encoding or 'latin1'`: still variable
+            if enc is None or isinstance(enc, ast.Constant) or not self.codec_lookup:
+                types = [t for t in types if t != 'LookupError']
+        if key == 'time.mktime' and call.args:
+            src = self._maybe_none_value(fi, call.args[0], call)
+            if src:
+                out.add(self._item(fi, call, 'TypeError', '%s %s (argument may be None: %s)' % (fi.loc(call), norm_text(call)[:60], src), 'external'))
         if key == '.to_bytes':
             # int.to_bytes(length, byteorder); repository classes' own to_bytes() take no such arguments
             if not (len(call.args) >= 2 or any(k.arg == 'byteorder' for k in call.keywords)):
@@ -504,6 +548,66 @@ class Escape:
         return out
 
     # ------------------------------------------------------------ idioms
+    def _class_maintains(self, fi, base):
+        """`base` is `self.<f>` (possibly subscripted) and the class itself fills that mapping (item store, setdefault, update)
+        or creates it as a defaultdict: presence of the key is then the class's own bookkeeping, not server data."""
+        cur = base
+        while isinstance(cur, ast.Subscript):
+            cur = cur.value
+        if not (U.is_self_attr(cur) and fi.cls is not None):
+            return False
+        attr = cur.attr
+        for c in self.repo.mro(fi.cls) + list(self.repo.subclasses(fi.cls)):
+            for m in c.methods.values():
+                for x in walk_no_nested(m.node):
+                    if isinstance(x, ast.Subscript) and isinstance(x.ctx, (ast.Store, ast.Del)) and U.is_self_attr(x.value, attr) \
+                            and isinstance(x.ctx, ast.Store):
+                        return True
+                    if isinstance(x, ast.Call) and isinstance(x.func, ast.Attribute) and x.func.attr in ('setdefault', 'update') \
+                            and U.is_self_attr(x.func.value, attr):
+                        return True
+                    if isinstance(x, ast.Assign) and any(U.is_self_attr(t, attr) for t in x.targets) and isinstance(x.value, ast.Call) \
+                            and (dotted(x.value.func) or '').split('.')[-1] in ('defaultdict', 'OrderedDefaultDict', 'Counter'):
+                        return True
+        return False
+
+    MAYBE_NONE_CALLS = ('email.utils.parsedate', 'email.utils.parsedate_tz')
+
+    def _maybe_none_value(self, fi, arg, use):
+        """`arg` (a local name) can hold the None that an external "parse or None" function returns, and no truthiness /
+        `is None` test of that name guards `use`.  Returns the source text or None."""
+        if not isinstance(arg, ast.Name):
+            return None
+        src = None
+        for v, k, st in U.local_defs(fi.node).get(arg.id, []):
+            if isinstance(v, ast.Call) and k == 'assign':
+                for kind, t in self.res.resolve_call(fi, v, allow_name=False, count=False):
+                    if kind == 'external' and t in self.MAYBE_NONE_CALLS:
+                        src = norm_text(v)[:60]
+        if src is None:
+            return None
+        pm = U.parents(fi.node)
+        def_line = max(getattr(st, 'lineno', 0) for v, k, st in U.local_defs(fi.node).get(arg.id, [])
+                       if isinstance(v, ast.Call) and norm_text(v)[:60] == src)
+
+        def tests_name(t):
+            # only a test made after the value was produced says anything about it
+            return getattr(t, 'lineno', 0) > def_line and any(isinstance(x, ast.Name) and x.id == arg.id for x in ast.walk(t))
+        child = use
+        for a in U.ancestors(use, pm):
+            if isinstance(a, ast.If) and tests_name(a.test):
+                return None
+            for fld in ('body', 'orelse', 'finalbody'):
+                blk = getattr(a, fld, None)
+                if isinstance(blk, list) and any(child is x for x in blk):
+                    i = [j for j, x in enumerate(blk) if x is child][0]
+                    for prev in blk[:i]:
+                        if isinstance(prev, ast.If) and tests_name(prev.test) and prev.body and isinstance(
+                                prev.body[-1], (ast.Return, ast.Raise, ast.Continue, ast.Break)):
+                            return None
+            child = a
+        return src
+
     def _maybe_none_match(self, fi, name, node):
         defs = U.local_defs(fi.node).get(name, [])
         if not defs:
@@ -546,6 +650,16 @@ class Escape:
             if isinstance(base, ast.Name) and guarded_len(fi.node, base.id, n, k):
                 return None
             return self._item(fi, n, IDIOM_INDEX, '%s %s (from .%s())' % (fi.loc(n), norm_text(n), meth), 'index')
+        # computed index with a known upper bound (loop over range(k), affine arithmetic) into server-derived text:
+        # the text must be known to be long enough
+        if self.taint is not None and isinstance(base, ast.Name) and not isinstance(idx, (ast.Constant, ast.Tuple)) \
+                and self.taint.tainted(fi, base) and (base.id in fi.params or _stringish_local(fi.node, base.id)):
+            mx = _max_index(fi.node, idx)
+            if mx is not None and mx >= 0:
+                if guarded_len(fi.node, base.id, n, mx):
+                    return None
+                return self._item(fi, n, IDIOM_INDEX, '%s %s (index up to %d into server-derived text of unchecked length)' % (
+                    fi.loc(n), norm_text(n), mx), 'index')
         # lookup in a module-level dict constant
         d = dotted(base)
         if d is not None and not self.res._is_local(fi, d.split('.')[0]):
@@ -554,6 +668,15 @@ class Escape:
                 if guarded_membership(fi.node, d, idx, n):
                     return None
                 return self._item(fi, n, IDIOM_KEY, '%s %s' % (fi.loc(n), norm_text(n)), 'key')
+        # lookup with a key that is server data in a mapping held by an object (`self.jar._cookies[cookie.domain][cookie.path]`):
+        # nothing says the key is present unless a membership test or a KeyError handler does
+        if self.taint is not None and isinstance(n.ctx, ast.Load) and not isinstance(idx, (ast.Constant, ast.Slice, ast.Tuple)) \
+                and isinstance(idx, (ast.Attribute, ast.Name)) and self.taint.tainted(fi, idx) and _attribute_chain_root(base, fi.node) \
+                and not _intish(fi.node, idx):
+            cont = norm_text(base)
+            if guarded_membership_text(fi.node, cont, idx, n) or self._class_maintains(fi, base):
+                return None
+            return self._item(fi, n, IDIOM_KEY, '%s %s (server-derived key, no membership test)' % (fi.loc(n), norm_text(n)), 'key')
         return None
 
 
@@ -733,6 +856,13 @@ def guarded_len(fn, name, node, k):
 
     def len_ok(test, positive):
         # positive: test true => long enough ; else test false => long enough
+        if isinstance(test, ast.UnaryOp) and isinstance(test.op, ast.Not):
+            return len_ok(test.operand, not positive)
+        if isinstance(test, ast.BoolOp):
+            # (A and B) true => each true ; (A or B) false => each false
+            if isinstance(test.op, ast.And) == positive:
+                return any(len_ok(v, positive) for v in test.values)
+            return False
         if isinstance(test, ast.Compare) and len(test.ops) == 1:
             left, right, op = test.left, test.comparators[0], type(test.ops[0])
             if isinstance(left, ast.Constant) and not isinstance(right, ast.Constant):
@@ -765,6 +895,101 @@ def guarded_len(fn, name, node, k):
                 i = [j for j, s in enumerate(blk) if s is child][0]
                 for prev in blk[:i]:
                     if isinstance(prev, ast.If) and _terminates(prev.body) and not prev.orelse and len_ok(prev.test, False):
+                        return True
+    return False
+
+
+def _max_index(fn, e, _depth=0):
+    """Upper bound of a non-negative integer expression built from constants, range()-loop variables and + * - by constants."""
+    if _depth > 4:
+        return None
+    if isinstance(e, ast.Constant) and isinstance(e.value, int) and not isinstance(e.value, bool):
+        return e.value
+    if isinstance(e, ast.Name):
+        ds = U.local_defs(fn).get(e.id, [])
+        if not ds:
+            return None
+        best = None
+        for v, k, s in ds:
+            m = None
+            if k == 'for' and isinstance(v, ast.Call) and dotted(v.func) == 'range' and v.args and not v.keywords:
+                stop = v.args[0] if len(v.args) == 1 else v.args[1]
+                step_ok = len(v.args) < 3 or (isinstance(v.args[2], ast.Constant) and isinstance(v.args[2].value, int) and v.args[2].value > 0)
+                if isinstance(stop, ast.Constant) and isinstance(stop.value, int) and step_ok:
+                    m = stop.value - 1
+            elif k == 'assign' and v is not None:
+                m = _max_index(fn, v, _depth + 1)
+            if m is None:
+                return None
+            best = m if best is None else max(best, m)
+        return best
+    if isinstance(e, ast.BinOp):
+        l, r = _max_index(fn, e.left, _depth + 1), _max_index(fn, e.right, _depth + 1)
+        if isinstance(e.op, ast.Add) and l is not None and r is not None:
+            return l + r
+        if isinstance(e.op, ast.Mult) and l is not None and r is not None and l >= 0 and r >= 0:
+            return l * r
+        if isinstance(e.op, ast.Sub) and l is not None and isinstance(e.right, ast.Constant) and isinstance(e.right.value, int):
+            return l - e.right.value
+    return None
+
+
+def _attribute_chain_root(base, fn=None, _depth=0):
+    """base is `<name>.<attr>...` or a subscript of such a chain (an object's mapping), or a local bound once to one,
+    not a plain local/str."""
+    if isinstance(base, ast.Name) and fn is not None and _depth < 3:
+        ds = U.local_defs(fn).get(base.id, [])
+        return len(ds) == 1 and ds[0][1] == 'assign' and ds[0][0] is not None and _attribute_chain_root(ds[0][0], fn, _depth + 1)
+    cur = base
+    seen_attr = False
+    while isinstance(cur, (ast.Attribute, ast.Subscript)):
+        if isinstance(cur, ast.Attribute):
+            seen_attr = True
+        cur = cur.value
+    return seen_attr and isinstance(cur, ast.Name)
+
+
+def _intish(fn, idx):
+    if isinstance(idx, ast.Name):
+        for v, k, s in U.local_defs(fn).get(idx.id, []):
+            if k == 'for' or (isinstance(v, ast.Call) and (dotted(v.func) or '') in ('int', 'len', 'range')) or isinstance(v, (ast.BinOp,)) \
+                    or (isinstance(v, ast.Constant) and isinstance(v.value, int)):
+                return True
+    return False
+
+
+def guarded_membership_text(fn, container_text, key, node):
+    """Like guarded_membership for an arbitrary container expression (compared by normalised text)."""
+    ktxt = norm_text(key)
+
+    def mem(test, positive):
+        if isinstance(test, ast.Compare) and len(test.ops) == 1 and norm_text(test.left) == ktxt \
+                and norm_text(test.comparators[0]) == container_text:
+            return isinstance(test.ops[0], ast.In) if positive else isinstance(test.ops[0], ast.NotIn)
+        if isinstance(test, ast.BoolOp) and isinstance(test.op, ast.And) and positive:
+            return any(mem(v, True) for v in test.values)
+        if isinstance(test, ast.BoolOp) and isinstance(test.op, ast.Or) and not positive:
+            return any(mem(v, False) for v in test.values)
+        if isinstance(test, ast.UnaryOp) and isinstance(test.op, ast.Not):
+            return mem(test.operand, not positive)
+        return False
+    for par, child in _enclosing_chain(fn, node):
+        if isinstance(par, ast.If):
+            if any(child is s for s in par.body) and mem(par.test, True):
+                return True
+            if any(child is s for s in par.orelse) and mem(par.test, False):
+                return True
+        if isinstance(par, ast.BoolOp) and isinstance(par.op, ast.And):
+            # `k in d and d[k]`
+            i = [j for j, v in enumerate(par.values) if v is child]
+            if i and any(mem(v, True) for v in par.values[:i[0]]):
+                return True
+        for fld in ('body', 'orelse', 'finalbody'):
+            blk = getattr(par, fld, None)
+            if isinstance(blk, list) and any(child is s for s in blk):
+                i = [j for j, s in enumerate(blk) if s is child][0]
+                for prev in blk[:i]:
+                    if isinstance(prev, ast.If) and _terminates(prev.body) and not prev.orelse and mem(prev.test, False):
                         return True
     return False
 
